@@ -5,6 +5,7 @@ import (
 	"go/constant"
 	"go/types"
 	"math/big"
+	"os"
 	"strings"
 )
 
@@ -278,6 +279,13 @@ func (e *Env) trIdent(name string) TV {
 		return e.valueTV(val, rv.t)
 	}
 	if v, ok := e.vars[name]; ok {
+		if os.Getenv("GOVC_TRACE_IDENT") == name {
+			lo := 0
+			if e.loop != nil {
+				lo = e.loop.ordinal
+			}
+			fmt.Fprintf(os.Stderr, "ident %s -> %s (loop %d, fn %s, depth %d)\n", name, v.T.S, lo, e.st.fr.fn.Name(), e.depth)
+		}
 		return v
 	}
 	switch name {
